@@ -287,7 +287,11 @@ def case_worker(items):
         model, codec = ans[: len(items)], ans[len(items):]
     for i, (label, d, _) in enumerate(items):
         res["n"] += 1
-        fails, out1 = oracle(d)
+        tie_only = label.startswith("quirk:")
+        fails, out1 = ([], None) if tie_only else oracle(d)
+        if tie_only:
+            out1, _e = real_roundtrip(d)
+            res["quirk_real_ok" if out1 is not None else "quirk_real_raises"] = res.get("quirk_real_ok" if out1 is not None else "quirk_real_raises", 0) + 1
         if fails:
             seen = classify(d, fails, open_ids)
             if seen:
@@ -306,14 +310,16 @@ def case_worker(items):
             k = (cz.get("unsupported") or cz.get("__error__") or "?")[:60]
             res["model_err"][k] = res["model_err"].get(k, 0) + 1
             continue
-        if not G.strict_eq(cz.get("ok"), d):
+        if not G.strict_eq(cz.get("ok"), ui_reduce(d)):
             if len(res["codec_bad"]) < 3:
-                res["codec_bad"].append({"label": label, "paths": [p for p, *_ in G.diff_paths(d, cz.get("ok"))][:5], "input": d if len(json.dumps(d)) < 3000 else None})
+                res["codec_bad"].append({"label": label, "paths": [p for p, *_ in G.diff_paths(ui_reduce(d), cz.get("ok"))][:5], "input": d if len(json.dumps(d)) < 3000 else None})
             continue
         m = model[i]
         real_out, real_err = (out1, None) if out1 is not None else real_roundtrip(d)
         if real_out is None:
             res["real_err"] += 1
+        else:
+            real_out = ui_reduce(real_out)
         agree = False
         if isinstance(m, dict) and "ok" in m and real_out is not None:
             try:
@@ -325,9 +331,10 @@ def case_worker(items):
                     agree = G.strict_eq(m["ok"], _type_hole(real_out))
         elif isinstance(m, dict) and "err" in m and real_out is None:
             agree = True
-        elif isinstance(m, dict) and m.get("err") == "freshUuid":
+        elif isinstance(m, dict) and m.get("err") in ("freshUuid", "unsupported"):
+            # the model does not invent uuids / derive field keys: outside the modelled domain
             res["model_declined"] += 1
-            res["model_err"]["freshUuid"] = res["model_err"].get("freshUuid", 0) + 1
+            res["model_err"][m["err"]] = res["model_err"].get(m["err"], 0) + 1
             continue
         if not agree:
             res["nties"] += 1
@@ -336,6 +343,20 @@ def case_worker(items):
                 res["ties"].append({"label": label, "paths": paths, "model": m if len(json.dumps(m, default=str)) < 1500 else "(large)", "real_error": real_err,
                                     "input": d if len(json.dumps(d)) < 4000 else None})
     return res
+
+
+def ui_reduce(doc):
+    """`_ui` reduced to node positions (what the model keeps of it)"""
+    doc = dict(doc)
+    flows = []
+    for f in doc.get("flows", []):
+        f = dict(f)
+        ui = f.pop("_ui", None)
+        if isinstance(ui, dict) and isinstance(ui.get("nodes"), dict):
+            f["_ui"] = {"nodes": {u: {"position": {"left": e["position"]["left"], "top": e["position"]["top"]}} for u, e in ui["nodes"].items()}}
+        flows.append(f)
+    doc["flows"] = flows
+    return doc
 
 
 def _type_hole(o):
@@ -440,6 +461,24 @@ def run(ck: core.Check):
         ck.case(json.dumps(d, sort_keys=True), nontrivial=nontrivial, sample={"seed": seed, "doc": d} if i < 2 and len(json.dumps(d)) < 2500 else None)
         items.append((f"seed={seed}", d, open_ids))
     fold(par.pmap(case_worker, core.shard(items, par.NPROC * 2)), "generated_documents")
+
+    # 4. quirk stream (tie only): near-valid documents outside the property's domain
+    qitems = []
+    for i in range(1500 if quick else 20000):
+        seed = ck.rng.getrandbits(48)
+        g = G.Gen(random.Random(seed), avoid=avoid, size=ck.rng.choice([1, 2]))
+        d0 = g.document(force_flow=True)
+        d, name = G.quirk(d0, random.Random(seed + 1))
+        if d is None:
+            continue
+        ck.count("quirk." + name)
+        ck.evaluations += 1
+        qitems.append((f"quirk:{name}:seed={seed}", d, open_ids))
+    qres = par.pmap(case_worker, core.shard(qitems, par.NPROC * 2))
+    fold(qres, "quirk_documents(tie only)")
+    for r in qres:
+        ck.count("quirk.real_code_ok", r.get("quirk_real_ok", 0))
+        ck.count("quirk.real_code_raises", r.get("quirk_real_raises", 0))
 
     # generator self-check: the declared strata must have been reached
     need = ["gen.node.basic", "gen.node.switch", "gen.node.random", "gen.node.router_action", "gen.router.shared_category",
